@@ -54,6 +54,8 @@ Ltac prune := try solve [exfalso; unfold go_len in *; cbn [length] in *; lia].
 Ltac gostep := first [ rewrite go_loop_S | rewrite go_loop_O ].
 Ltac gonorm := cbn; fix_tonat; cbn.
 Ltac gosym := repeat (gonorm; first [ split_if; prune | gostep ]); gonorm.
+(* the same without entering loops: stops in front of the first [go_loop] *)
+Ltac gosym0 := repeat (gonorm; split_if; prune); gonorm.
 Ltac gosym_done :=
   try reflexivity; try exact I;
   try (unfold go_len, int_of_byte, byte_of_int, byte_sub, byte_add, byte_mul in *; cbn [length] in *;
